@@ -199,17 +199,26 @@ impl FromStr for Id {
 
         let mut bytes = Vec::with_capacity(s.len() / 2);
 
-        for i in 0..s.len() / 2 {
-            let byte_str = &s[i * 2..(i * 2) + 2];
-            if let Ok(byte) = u8::from_str_radix(byte_str, 16) {
-                bytes.push(byte);
-            } else {
-                return Err(DecodeIdError::InvalidHexCharacter(byte_str.into()));
+        // Work on bytes: slicing the `str` panics inside multi-byte characters,
+        // and `u8::from_str_radix` accepts a leading `+` sign.
+        for pair in s.as_bytes().chunks_exact(2) {
+            match (hex_value(pair[0]), hex_value(pair[1])) {
+                (Some(high), Some(low)) => bytes.push((high << 4) | low),
+                _ => {
+                    return Err(DecodeIdError::InvalidHexCharacter(
+                        String::from_utf8_lossy(pair).into(),
+                    ));
+                }
             }
         }
 
         Ok(Id::from_bytes(bytes)?)
     }
+}
+
+/// Value of an ASCII hex digit, `None` for any other byte.
+fn hex_value(byte: u8) -> Option<u8> {
+    (byte as char).to_digit(16).map(|digit| digit as u8)
 }
 
 impl Debug for Id {
